@@ -128,15 +128,27 @@ def sched_scenarios(run, menu_name, group, theorems, mode="th", reader_relaxed=F
         todo = [("witness", f["schedule"], f) for f in finals] if witnesses else []
         for _ in range(rand_quick if quick else rand_thorough):
             todo.append(("random", None, None))
-        for kind, schedule, f in todo:
-            u = Universe()
-            r = sched.run_schedule(u, [dict(c) for c in setup], [dict(c) for c in calls], schedule=schedule,
-                                   rng=random.Random(rng.random()) if schedule is None else None, mode=mode,
-                                   sticky=rng.choice([0.0, 0.6, 0.85, 0.95]) if kind == "extra" else 0.0)
+        # thorough tier: a short conflict-directed walk on every pair, whether or not anything diverged
+        walker = sched.Dfs(seed=run.seed, budget=40, conflicts=True, max_preempt=2) if (not quick and group == "pairs") else None
+        diverged_here = False
+        while todo or walker is not None:
+            if todo:
+                kind, schedule, f = todo.pop(0)
+                u = Universe()
+                r = sched.run_schedule(u, [dict(c) for c in setup], [dict(c) for c in calls], schedule=schedule,
+                                       rng=random.Random(rng.random()) if schedule is None else None, mode=mode,
+                                       sticky=rng.choice([0.0, 0.6, 0.85, 0.95]) if kind == "extra" else 0.0)
+            else:
+                # preemption-bounded walk over the operations on which the calls of this scenario conflict (sched.Dfs)
+                kind, schedule, f = "walk", None, None
+                r = sched.run_schedule(Universe(), [dict(c) for c in setup], [dict(c) for c in calls], dfs=walker, mode=mode)
+                if walker.done() or len(run.violations) >= 45:
+                    run.extra.setdefault("conflict_walks", {})[sid] = {"runs": walker.runs, "complete": walker.complete}
+                    walker = None
             replays += 1
             outs, st = r["outcomes"], r["state"]
             key = (sid, kind, tuple(r["schedule"]))
-            run.case("P-sched" if kind == "witness" else ("search-concentrated" if kind == "extra" else "search-schedules"), key, nontrivial=len(set(r["schedule"])) > 1,
+            run.case("P-sched" if kind == "witness" else ("search-concentrated" if kind in ("extra", "walk") else "search-schedules"), key, nontrivial=len(set(r["schedule"])) > 1,
                      sample={"projection": "P-sched", "setup": s["setup"], "calls": s["calls"], "schedule": ",".join(map(str, r["schedule"])),
                              "kind": kind, "outcomes": outs, "files": st})
             if kind == "witness":
@@ -189,10 +201,13 @@ def sched_scenarios(run, menu_name, group, theorems, mode="th", reader_relaxed=F
                 sig = {"kind": "sched", "symptom": classify(calls, outs, st, r["status"]), "scenario": sid, "mode": mode,
                        "calls": sorted(c["op"] for c in calls), "model_has_this_failure": "yes" if same_as_model else "no"}
                 run.violation(sig, "[%s] after [%s] under schedule %s: %s" % (s["calls"], s["setup"], ",".join(map(str, r["schedule"])), problem), replay)
-            if kind == "witness" and d and concentrated[0] < 40 and not any(t[0] == "extra" for t in todo):
-                # the model's schedule no longer fits this scenario: concentrate the search here (many schedules with few preemptions)
+            if kind == "witness" and d and not diverged_here and concentrated[0] < (30 if quick else 120):
+                # the model's schedule no longer fits this scenario: concentrate the search here — random schedules with few
+                # preemptions, then a systematic walk with at most two preemptions, placed where the calls conflict
+                diverged_here = True
                 concentrated[0] += 1
-                todo.extend(("extra", None, None) for _ in range(60))
+                todo.extend(("extra", None, None) for _ in range(20))
+                walker = sched.Dfs(seed=run.seed, budget=250 if quick else 1500, conflicts=True, max_preempt=2)
     # extraction vs kernel on a couple of the replay command lines used above
     if witnesses and chosen:
         import checks_cf
@@ -218,6 +233,8 @@ WAKE12 = [
     ("", "sm 1 1 p 1 1 || sm 1 1 p 2 1 || sm 1 2 p 1 1"),                           # metadata documents
     ("sm 1 1 p 1 1 ; sm 2 1 p 1 1", "dm 1 1 || sm 1 1 p 2 1 || dm 2 1"),
     ("sm 1 1 p 1 1 ; sm 1 2 p 1 1", "dm 1 - || sm 1 1 p 2 1 || sm 1 2 p 2 1"),
+    ("sm 1 1 p 1 1 ; sm 1 2 p 1 1", "dm 1 1 || dm 1 1 || sm 1 2 p 2 1"),          # two deleters of one document, a third call releases another
+    ("sm 1 1 p 1 1", "sm 1 1 p 2 1 || dm 1 1 || sm 1 2 p 1 1"),
 ]
 
 
@@ -231,15 +248,18 @@ def wake_families(run, families, n, reader_relaxed=False, mode="th", oracle="lin
         # first a systematic walk over the orders of the synchronisation steps (sched.Dfs: complete when the budget allows,
         # which it does for two-call pools and the metadata pools), then random schedules at single-operation granularity
         budget = dfs if dfs is not None else (700 if (len(calls) == 2 or all(c["op"] in ("sm", "dm", "rm") for c in calls)) else (100 if run.tier == "quick" else 1500))
-        walker = sched.Dfs(seed=run.seed, budget=budget) if budget else None
+        # ... and a preemption-bounded walk (a thread stopped INSIDE its critical section, where the calls conflict)
+        walkers = ([sched.Dfs(seed=run.seed, budget=budget)] if budget else []) + \
+                  [sched.Dfs(seed=run.seed, budget=150 if run.tier == "quick" else 1500, conflicts=True, max_preempt=2)]
+        walker = walkers.pop(0)
         k = 0
         while True:
             if walker is not None:
                 r = sched.run_schedule(Universe(), [dict(c) for c in setup], [dict(c) for c in calls], dfs=walker, mode=mode)
                 run.count("systematic_runs", calls_t)
                 if walker.done():
-                    run.extra.setdefault("systematic", {})[calls_t] = {"runs": walker.runs, "complete": walker.complete}
-                    walker = None
+                    run.extra.setdefault("systematic", {}).setdefault(calls_t, []).append({"runs": walker.runs, "complete": walker.complete, "preemption_bounded": walker.conflicts})
+                    walker = walkers.pop(0) if walkers else None
             else:
                 if k >= n:
                     break
